@@ -17,7 +17,7 @@ def nary(n):
     out.append(OpContract(
         name=f"combine_latest/{n}", props=["C13"], file=OBS + "combinelatest.py", func="combine_latest_",
         call=f"combine_latest_({args})", params={"n": f"const:{n}"}, sources=srcs,
-        spec="specs.c13:combine_latest",
+        spec="specs.c13:combine_latest", witness=f"reactivex.combine_latest({args})",
         cells={"has_value": "list:bool", "has_value_all": "bool", "is_done": "list:bool", "values": "list:val"},
         spec_args={"has": "list:bool", "vals": "list:val", "done_": "list:bool", "term": "bool"},
         inv=_idx(n, "has_value[{i}] == s.has[{i}] and is_done[{i}] == s.done_[{i}] and implies(s.has[{i}], same(values[{i}], s.vals[{i}]))")
@@ -26,7 +26,7 @@ def nary(n):
     out.append(OpContract(
         name=f"zip/{n}", props=["C13"], file=OBS + "zip.py", func="zip_",
         call=f"zip_({args})", params={"n": f"const:{n}"}, sources=srcs,
-        spec="specs.c13:zip_",
+        spec="specs.c13:zip_", witness=f"reactivex.zip({args})",
         cells={"queues": "list:seq", "is_completed": "list:bool"},
         spec_args={"q": "list:seq", "done_": "list:bool", "term": "bool"},
         # between events at least one queue is empty (a full row is emitted at once)
@@ -35,7 +35,7 @@ def nary(n):
     out.append(OpContract(
         name=f"fork_join/{n}", props=["C13"], file=OBS + "forkjoin.py", func="fork_join_",
         call=f"fork_join_({args})", params={"n": f"const:{n}"}, sources=srcs,
-        spec="specs.c13:fork_join",
+        spec="specs.c13:fork_join", witness=f"reactivex.fork_join({args})",
         cells={"values": "list:val", "is_done": "list:bool", "has_value": "list:bool"},
         spec_args={"has": "list:bool", "vals": "list:val", "done_": "list:bool", "term": "bool"},
         # while the run is live, a source that completed had a value (an empty completion ends the run at once)
@@ -47,7 +47,7 @@ def nary(n):
         out.append(OpContract(
             name=f"with_latest_from/{n}", props=["C13"], file=OBS + "withlatestfrom.py", func="with_latest_from_",
             call=f"with_latest_from_({args})", params={"n": f"const:{n}"}, sources=srcs,
-            spec="specs.c13:with_latest_from",
+            spec="specs.c13:with_latest_from", witness=f"a.pipe(ops.with_latest_from({', '.join(srcs[1:])}))",
             cells={"values": "list:sentinel-or-val"},
             spec_args={"has": "list:bool", "vals": "list:val", "term": "bool"},
             inv=" and ".join(f"(values[{j}] is not NO_VALUE) == s.has[{j + 1}] and implies(s.has[{j + 1}], same(values[{j}], s.vals[{j + 1}]))"
@@ -60,7 +60,7 @@ CONTRACTS = nary(2) + nary(3) + [
     OpContract(
         name="amb", props=["C13"], file=OPS + "_amb.py", func="amb_",
         call="amb_(right_source)(left_source)", params={}, sources=("left_source", "right_source"),
-        spec="specs.c13:amb",
+        spec="specs.c13:amb", witness="left_source.pipe(ops.amb(right_source))",
         cells={"choice": "cell:choice:[None, 'L', 'R']"},
         spec_args={"choice": "int", "term": "bool"},
         inv="s.choice >= -1 and s.choice <= 1 and (choice[0] is None) == (s.choice == -1) and (choice[0] == 'L') == (s.choice == 0) "
